@@ -6,6 +6,8 @@ Section Undirected.
 Context {L : Type}.
 Variable leqb : L -> L -> bool.
 Variable ldef : L.
+Variable lcode : L -> Z.
+Variable lalpha : list L.
 Variable has_store : bool.
 Variable V : variant.
 Notation dgraph := (@dgraph L).
@@ -65,15 +67,84 @@ Definition u_remove_vertex (g : dgraph) (v : nat) : dgraph * res :=
     else (g, UBk IndexOOB)
   else (g, Thrown OutOfRange).
 
+(* removeDuplicateEdges: per list keep first occurrences; the edge count drops once per removed entry on the i <= j half *)
+Fixpoint u_dedup (i : nat) (seen : list nat) (l : list nat) : list nat * Z :=
+  match l with [] => ([], 0)
+  | x :: t => if mem x seen then let '(r, c) := u_dedup i seen t in (r, (if Nat.leb i x then 1 else 0) + c)
+              else let '(r, c) := u_dedup i (x :: seen) t in (x :: r, c) end.
+Fixpoint u_dedup_rows (i : nat) (rows : list (list nat)) : list (list nat) * Z :=
+  match rows with [] => ([], 0) | r :: rs => let '(r', c) := u_dedup i [] r in let '(rs', c') := u_dedup_rows (S i) rs in (r' :: rs', c + c') end.
+Definition u_remove_duplicates (g : dgraph) : dgraph * res :=
+  if Nat.leb (size g) (length (adj g)) then
+    let '(rows, c) := u_dedup_rows 0 (adj g) in ({| adj := rows; size := size g; enum := enum g - c; labels := labels g |}, Done)
+  else (g, UBk IndexOOB).
+
+(* ---- edges(): same begin()/end() as the directed cursor; operator++ additionally skips the half-edges with vertex > neighbour ---- *)
+Fixpoint u_next_loop (fuel : nat) (g : dgraph) (c : cursor) : outcome cursor :=
+  obind (skip_empty (size g) g {| cv := cv c; cpos := S (cpos c) |}) (fun c' =>
+  obind (out_neighbours g (cv c')) (fun l =>
+    if Nat.eqb (cpos c') (length l) && Nat.eqb (cv c') (end_vertex g) then Val c'                     (* hasReachedEnd *)
+    else match nth_error l (cpos c') with
+         | None => Undef DerefEnd
+         | Some j => if Nat.ltb j (cv c') then match fuel with O => Undef Fuel | S f => u_next_loop f g c' end else Val c' end)).
+Definition u_cursor_next (g : dgraph) (c : cursor) : outcome cursor := u_next_loop (entries g) g c.
+Definition u_iterate (g : dgraph) : outcome (list edge) :=
+  obind (edges_begin V g) (fun b => obind (edges_end V g) (fun e => iter_loop u_cursor_next (S (entries g)) g b e)).
+
+(* ---- degrees, adjacency matrix ---- *)
+Definition u_degrees (g : dgraph) (twice : bool) : outcome (list nat) := omapM (fun i => u_degree g i twice) (seq 0 (size g)).
+Definition u_matrix_row (i n : nat) (twice : bool) (l : list nat) : outcome (list nat) :=
+  fold_left (fun acc j => obind acc (fun row => match nth_error row j with None => Undef IndexOOB
+      | Some x => Val (upd j (fun _ => (x + (if Nat.eqb i j && twice then 2 else 1))%nat) row) end)) l (Val (repeat 0%nat n)).
+Definition u_adjacency_matrix (g : dgraph) (twice : bool) : outcome (list (list nat)) :=
+  omapM (fun i => obind (out_neighbours g i) (u_matrix_row i (size g) twice)) (seq 0 (size g)).
+
+(* ---- conversions ---- *)
+Definition lift (r : dgraph * res) : outcome dgraph := match r with (g, Done) => Val g | (_, Thrown e) => Raise e | (_, UBk k) => Undef k end.
+(* getDirectedGraph: both orientations of each edge (one for a loop), forced, carrying the edge's label (pinned: EdgeLabel() for non-loops) *)
+Definition to_directed (keep_label : bool) (g : dgraph) : outcome dgraph :=
+  obind (u_iterate g) (fun es =>
+    fold_left (fun acc e => obind acc (fun h =>
+      let '(i, j) := e in
+      if Nat.ltb i j then
+        obind (if keep_label then u_get_label g i j true else Val ldef) (fun l => lift (add_reciprocal has_store V h i j l true))
+      else if Nat.eqb i j then obind (u_get_label g i j true) (fun l => lift (add_edge has_store V h i j l true))
+      else Val h)) es (Val (init (size g)))).
+(* LabeledUndirectedGraph(const Directed&) *)
+Definition of_directed (d : dgraph) : outcome dgraph :=
+  fold_left (fun acc i => obind acc (fun h => obind (out_neighbours d i) (fun l =>
+     fold_left (fun acc2 j => obind acc2 (fun h2 => obind (get_label ldef has_store d i j true) (fun lb => lift (u_add_edge h2 i j lb false)))) l (Val h))))
+    (seq 0 (size d)) (Val (init (size d))).
+Definition u_of_edge_list (es : list (nat * nat * L)) : outcome dgraph :=
+  fold_left (fun acc e => obind acc (fun h => let '(i, j, l) := e in
+     let m := Nat.max i j in
+     obind (if Nat.leb (size h) m then lift (resize h (S m)) else Val h) (fun h1 => lift (u_add_edge h1 i j l false)))) es (Val (init 0)).
+
+(* ---- observations: 0 size/edge count, 1 hasEdge (all ordered pairs), 2 neighbour multisets, 3 labels, 4 hasEdge(i,j,l),
+   5 degrees (single calls and vectors, both conventions), 6 adjacency matrix (both conventions), 7 edges() ---- *)
+Definition u_observe (g : dgraph) : list (list Z) :=
+  let n := size g in let vs := seq 0 n in
+  [ [zn n; enum g];
+    map (fun e => zout zbool (u_has_edge g (fst e) (snd e))) (pairs n);
+    flat_map (fun i => zvec zn n (omap (fun l => map (fun j => count j l) vs) (out_neighbours g i))) vs;
+    flat_map (fun e => [zout lcode (u_get_label g (fst e) (snd e) false); zout (fun _ => 1) (u_get_label g (fst e) (snd e) true)]) (pairs n);
+    flat_map (fun e => map (fun l => zout zbool (u_has_edge_l g (fst e) (snd e) l)) lalpha) (pairs n);
+    map (fun i => zout zn (u_degree g i true)) vs ++ map (fun i => zout zn (u_degree g i false)) vs ++ zvec zn n (u_degrees g true) ++ zvec zn n (u_degrees g false);
+    flat_map (fun tw => match u_adjacency_matrix g tw with Val m => map zn (concat m) | Raise e => repeat (zexn e) (n * n) | Undef _ => repeat zub (n * n) end) [true; false];
+    match u_iterate g with Val es => zn (length es) :: map (fun e => zn (length (filter (edge_eqb e) es))) (pairs n) | Raise e => repeat (zexn e) (S (n * n)) | Undef _ => repeat zub (S (n * n)) end ].
+
 Inductive uop :=
 | UAdd (a b : nat) (l : L) (force : bool) | URemove (a b : nat) | USelfLoops | URemoveVertex (v : nat) | UClear | UResize (n : nat)
-| USetLabel (a b : nat) (l : L) (force : bool).
+| USetLabel (a b : nat) (l : L) (force : bool) | URemoveDuplicates.
 Definition ustep (g : dgraph) (o : uop) : dgraph * res :=
   match o with
   | UAdd a b l f => u_add_edge g a b l f | URemove a b => u_remove_edge g a b | USelfLoops => u_remove_self_loops g
-  | URemoveVertex v => u_remove_vertex g v | UClear => clear_edges V g | UResize n => resize g n | USetLabel a b l f => u_set_edge_label g a b l f end.
+  | URemoveVertex v => u_remove_vertex g v | UClear => clear_edges V g | UResize n => resize g n | USetLabel a b l f => u_set_edge_label g a b l f | URemoveDuplicates => u_remove_duplicates g end.
 Fixpoint urun (g : dgraph) (ops : list uop) : dgraph * res :=
   match ops with [] => (g, Done) | o :: ops' => match ustep g o with (g1, Done) => urun g1 ops' | r => r end end.
+Fixpoint u_trace (g : dgraph) (ops : list uop) : list (list (list Z)) :=
+  match ops with [] => [] | o :: ops' =>
+    let '(g1, r) := ustep g o in ([zres r] :: u_observe g1) :: match r with UBk _ => [] | _ => u_trace g1 ops' end end.
 End Undirected.
 
 (* sanity: the model reproduces the pinned behaviour seen on the real code *)
